@@ -15,12 +15,13 @@ import pyref.bign as RB
 from errs import E, name as ename
 
 RULE = ("cases: table of ~190 valid calls of err_t functions (belt ECB/CBC/CFB/CTR/MAC/DWP/CHE/KWP/Hash/BDE/SDE/FMT/KRP/HMAC/PBKDF2, bashHash, brng*Rand, botp*Rand/Verify, bels*, "
-        "bign* and bign96* (3 levels), g12s*, dstu*, pfok*, bpki containers and CSR, btokCVC*, btokSM*, bake KDF/SWU and the six RunA/RunB drivers over an in-memory channel) "
+        "bign* and bign96* (3 levels), g12s*, dstu*, pfok*, bpki containers and CSR, btokCVC*, btokSM*, bake KDF/SWU, the six RunA/RunB drivers over an in-memory channel, the Start functions and the steps that call the caller's certificate validator "
+        "(bakeBSTSStep4/5, btokBAuthTStep5 after an honest run up to the step; validator accepting / accepting after working on an allocated copy / refusing; message cut short)) "
         "x args: every listed scalar (key/data length, level l, alphabet size, count, threshold, digit count, iteration count, token length, time mark) at 0, 1, lo-1, lo, hi, hi+1, "
         "SIZE_MAX/2+1, SIZE_MAX and structured arguments (private key 0 / q / 2^2l-1, public key x>=p / y>=p / off-curve, bad OID DER, params.l outside {128,192,256}, "
         "share numbers 0 / 17 / duplicate, bad names / dates / suites), singly and in pairs, outputs exact-size under ASan "
         "x allocfail: fault-free run (count n, live 0), then failure injected at every k = 1..n (n capped at 12 in the quick tier) "
-        "x norelease: single-bit alteration of tag / ciphertext / header / key / iv / token / container / password / last protocol message. "
+        "x norelease: single-bit alteration of tag / ciphertext / header / key / iv / token / container / password / last protocol message / signature, key or body of a certificate request. "
         "non-trivial: an out-of-domain argument or an injected allocation failure; distinct by (function, argument, boundary value) resp. (function, k) resp. (function, altered part)")
 LEVEL = "fault_enumeration"
 ASSUMPTIONS = ["the expected error of an out-of-domain value is the code named by \\expect{...} of that function's header; where the header names none only '!= ERR_OK' is demanded",
@@ -840,8 +841,12 @@ def add_bign(l96=False):
             if x.call("bignOidToDER", None, ln, s):
                 raise Fail("bignOidToDER(0, &count, %r) (length query) failed" % v["oid"])
             n = ln.int()
-        return "bignOidToDER", [x.out(n), x.buf(n.to_bytes(8, "little")), s]      # [?count]der: count holds the capacity on input
-    add("bignOidToDER", lambda c: {"oid": OK_OIDS[c["L"] % len(OK_OIDS)]}, {"oid": OK_OIDS + BAD_OIDS}, lambda v, c: ("ERR_BAD_OID",) if v["oid"] in BAD_OIDS else None, oidtoder)
+        # [?count]der: count holds the capacity on input ("длина буфера der"); a buffer shorter than the code cannot be filled: any error, and the exact-size
+        # buffer shows a write past the stated capacity
+        n = {"exact": n, "short1": max(n - 1, 0), "half": n // 2, "one": 1, "zero": 0}[v["cap"]]
+        return "bignOidToDER", [x.out(n), x.buf(n.to_bytes(8, "little")), s]
+    add("bignOidToDER", lambda c: {"oid": OK_OIDS[c["L"] % len(OK_OIDS)], "cap": "exact"}, {"oid": OK_OIDS + BAD_OIDS, "cap": ["exact", "short1", "half", "one", "zero"]},
+        lambda v, c: ("ERR_BAD_OID",) if v["oid"] in BAD_OIDS else ANY if v["cap"] != "exact" else None, oidtoder)
 
     # ---- bignParamsEnc / bignParamsDec: "\return ERR_OK в случае успеха и код ошибки в противном случае."
     def penc_len(x, P):
@@ -1682,6 +1687,38 @@ def add_bake():
     for proto, idx in (("BMQV", 0), ("BSTS", 1), ("BPACE", 0), ("BAUTH", 0), ("BAUTH", 1)):
         start(proto, idx)
 
+    # ---- the steps that take the peer's certificate from the message and hand it to the caller's validator (bake.h bakeBSTSStep4 / Step5, btok.h btokBAuthTStep5:
+    # "\return ERR_OK, если шаг успешно выполнен, и код ошибки в противном случае"): the protocol is run honestly up to the step, then the step is called with
+    # a validator that accepts, one that accepts after working on an allocated copy (its allocation is one of the allocations "made during the call"), one that
+    # refuses; and with the message cut short (buffer of exactly in_len octets)
+    def valstep(proto, fn):
+        VAL = {"ok": c04.CERTVAL, "alloc": Sym("x_bake_certval_alloc"), "reject": Sym("x_bake_certval_reject")}
+
+        def case(c):
+            cc = dict(bake_case(c, "BSTS"), proto=proto)
+            if proto == "BAUTH":
+                cc["kcb"] = True
+            cc["na"], cc["nb"] = c["L"] % 21, (c["L"] * 3) % 21
+            return cc
+
+        def build(x, c, v):
+            env = c04.mk_env(x, case(c))
+            res = c04.do_run(x, env, stop_at=fn)
+            if res["fail"] or "pending" not in res:
+                raise Fail("honest %s run preparing %s failed: %s" % (proto, fn, c04.trace(res)))
+            _, args, m, tmpl = res["pending"]
+            n = {"ok": len(m), "short1": len(m) - 1, "short9": len(m) - 9, "half": len(m) // 2, "zero": 0}[v["in_len"]]
+            args = list(args)
+            args[tmpl.index("i")] = x.buf(m[:n])
+            args[tmpl.index("l")] = n
+            args[tmpl.index("v")] = VAL[v["val"]]
+            return fn, args
+        add(fn, lambda c: {"val": ["ok", "alloc"][c["L"] % 2], "in_len": "ok"}, {"val": ["ok", "alloc", "reject"], "in_len": ["ok", "short1", "short9", "half", "zero"]},
+            lambda v, c: ANY if v["val"] == "reject" or v["in_len"] != "ok" else None, build)
+    valstep("BSTS", "bakeBSTSStep4")
+    valstep("BSTS", "bakeBSTSStep5")
+    valstep("BAUTH", "btokBAuthTStep5")
+
 
 add_belt()
 add_bash_brng()
@@ -1941,6 +1978,33 @@ def run_norelease(ctx, c):
         o = x.out(n)
         r = x.call(U, o, x.zero(8), x.buf(cont), len(cont), x.buf(pwd), len(pwd))
         must_not_hold(U, "protected key", r, o.read(), sec, part)
+    elif kind == "bpkiCSR":
+        # a certificate request carries its own public key and a signature under it: when the signature (or anything it covers) does not verify,
+        # the key of the request must not reach the caller's buffer
+        csr = CSR
+        if c["m"] % 3:
+            cb = x.buf(CSR)
+            if x.call("bpkiCSRRewrap", cb, len(CSR), x.buf(priv_of({"seed": sd, "L": c["m"]}, 128, "ok")), 32):
+                raise Fail("bpkiCSRRewrap failed")
+            csr = cb.read()
+        o, ln = x.out(64), x.zero(8)
+        if x.call("bpkiCSRUnwrap", o, ln, x.buf(csr), len(csr)) or ln.int() != 64:
+            raise Fail("bpkiCSRUnwrap rejects a valid request")
+        pk = o.read()
+        koff = csr.find(pk)
+        if koff < 0:
+            raise Fail("bpkiCSRUnwrap returned a key that is not in the request")
+        part = ["signature", "pubkey", "body"][part % 3]
+        if part == "signature":
+            csr2 = flip(csr, len(csr) - 48 + pos % 48, bit)
+        elif part == "pubkey":
+            csr2 = flip(csr, koff + pos % 64, bit)
+        else:
+            body_at = [i for i in range(8, len(csr) - 48 - 19) if not koff <= i < koff + 64]
+            csr2 = flip(csr, body_at[pos % len(body_at)], bit)
+        o = x.out(64)
+        r = x.call("bpkiCSRUnwrap", o, x.zero(8), x.buf(csr2), len(csr2))
+        must_not_hold("bpkiCSRUnwrap", "public key of the request", r, o.read(), csr2[koff:koff + 64], part)
     elif kind in ("SMcmd", "SMresp"):
         c17 = _mod("c17")
         k = "cmd" if kind == "SMcmd" else "resp"
@@ -1998,7 +2062,7 @@ def run_norelease(ctx, c):
     ctx.sample(c)
 
 
-NR_KINDS = ["DWP", "CHE", "KWP", "bignKey", "bpkiPriv", "bpkiShare", "SMcmd", "SMresp"]
+NR_KINDS = ["DWP", "CHE", "KWP", "bignKey", "bpkiPriv", "bpkiShare", "bpkiCSR", "SMcmd", "SMresp"]
 
 
 # ================================================================== deterministic enumerations (every table entry in every run)
